@@ -44,9 +44,10 @@ func sels(file, recv string, props []string, methods ...string) []sel {
 }
 
 var (
-	pIter  = []string{"C17", "C01", "C13"} // the list loops (C01) and the stack (C13) run on the iterator
+	pIter  = []string{"C17", "C01", "C13", "C02"} // the list loops (C01), the stack (C13) and the set (C02) run on the iterator
 	pIter1 = []string{"C17"}
-	pSeq   = []string{"C01", "C13"}
+	pSeq   = []string{"C01", "C13", "C02"}
+	pSet   = []string{"C02"}
 	pSeq1  = []string{"C01"}
 	pStk   = []string{"C13"}
 )
@@ -65,9 +66,15 @@ var selection = concat(
 	// (c) collection/stack.go and the two list methods it calls (part of (d))
 	sels("collection/stack.go", "stack_", pStk, "AddValue", "RemoveTop", "GetCapacity", "RemoveAll", "GetSize", "IsEmpty", "AsArray"),
 	sels("collection/list.go", "list_", pSeq, "InsertValue", "RemoveValue", "RemoveAll"),
+	// (e) collection/set.go: the binary search and what rests on it (the collator's RankValues is external)
+	sels("collection/set.go", "set_", pSet, "findIndex", "AddValue", "RemoveValue", "ContainsValue", "GetIndex", "GetSize", "GetValue", "IsEmpty", "AsArray"),
 	// (d) the remaining rebuild loops of list.go
 	sels("collection/list.go", "list_", pSeq1, "GetValues", "SetValue", "SetValues", "AppendValue", "AppendValues", "InsertValues", "RemoveValues"),
 )
+
+// methods of types that are not translated: calls go to the oracle [ext] of the semantics; their names are
+// always emitted so that coq/GenRep.v can name them
+var externals = [][2]string{{"collator_", "RankValues"}, {"collator_", "CompareValues"}}
 
 func concat(ls ...[]sel) []sel {
 	var r []sel
@@ -103,6 +110,7 @@ type pkgFacts struct {
 	accessors map[string]string      // class accessor function -> class struct type it instantiates
 	fieldName map[string]bool        // every field name of every struct
 	funcs     map[string]*ast.FuncDecl
+	consts    map[string]int       // integer constants declared as  Name T = iota  followed by bare names
 	files     map[string]*ast.File // by relative file name
 	fileOf    map[*ast.FuncDecl]string
 }
@@ -180,6 +188,25 @@ func (pf *pkgFacts) scan(rel string, f *ast.File) {
 	for _, d := range f.Decls {
 		switch x := d.(type) {
 		case *ast.GenDecl:
+			if x.Tok == token.CONST {
+				// const ( A T = iota; B; C ): the only form of constant the subset knows
+				iota := false
+				for i, sp := range x.Specs {
+					vs := sp.(*ast.ValueSpec)
+					if i == 0 {
+						if len(vs.Values) == 1 {
+							if id, ok := vs.Values[0].(*ast.Ident); ok && id.Name == "iota" {
+								iota = true
+							}
+						}
+					} else if len(vs.Values) != 0 {
+						iota = false
+					}
+					if iota && len(vs.Names) == 1 {
+						pf.consts[vs.Names[0].Name] = i
+					}
+				}
+			}
 			if x.Tok != token.TYPE {
 				continue
 			}
@@ -259,18 +286,19 @@ type write struct {
 }
 
 type ftrans struct {
-	pf       *pkgFacts
-	fset     *token.FileSet
-	imports  map[string]bool // import aliases of the file
-	tparams  []string
-	recvVar  string
-	recvType string
-	recvPtr  bool
-	params   []string
-	sc       *scope
-	ids      map[string]bool // method and type names used (for the table)
-	nextVar  int
-	locals   []string // real names of the numbered variables, in order (for the report only)
+	pf           *pkgFacts
+	fset         *token.FileSet
+	imports      map[string]bool // import aliases of the file
+	tparams      []string
+	recvVar      string
+	recvType     string
+	recvPtr      bool
+	params       []string
+	sc           *scope
+	ids          map[string]bool // method and type names used (for the table)
+	nextVar      int
+	namedResults bool
+	locals       []string // real names of the numbered variables, in order (for the report only)
 	// alias analysis
 	edges     []aliasEdge
 	writes    []write
@@ -560,6 +588,9 @@ func (t *ftrans) expr(e ast.Expr) string {
 		fail(x.Pos(), "identifier %q is not a local variable, parameter or receiver", x.Name)
 	case *ast.SelectorExpr:
 		if t.isPkg(x.X) {
+			if k, ok := allConsts[x.Sel.Name]; ok {
+				return fmt.Sprintf("(EInt %d%%Z)", k) // an enumeration constant (const .. = iota) of the library
+			}
 			fail(x.Pos(), "package-qualified name %s.%s outside a call", x.X.(*ast.Ident).Name, x.Sel.Name)
 		}
 		if t.pf.fieldName[x.Sel.Name] {
@@ -940,6 +971,9 @@ func (t *ftrans) stmt(s ast.Stmt) string {
 		v := kv(x.Value, true)
 		return "(SRange " + k + " " + v + " " + e + " " + t.block(x.Body) + ")"
 	case *ast.ReturnStmt:
+		if t.namedResults && len(x.Results) == 0 {
+			fail(x.Pos(), "bare return in a function with named results is outside the subset")
+		}
 		for _, r := range x.Results {
 			t.noteAlias("(result)", r, r.Pos())
 		}
@@ -989,6 +1023,7 @@ type errOut struct {
 }
 
 var allAccessors = map[string]string{}
+var allConsts = map[string]int{}
 
 func translate(pf *pkgFacts, fset *token.FileSet, fd *ast.FuncDecl, file *ast.File, ids map[string]bool) (fo *fnOut, terrv *terr) {
 	defer func() {
@@ -1053,14 +1088,25 @@ func translate(pf *pkgFacts, fset *token.FileSet, fd *ast.FuncDecl, file *ast.Fi
 			params = append(params, t.local(n.Pos(), n.Name))
 		}
 	}
+	// named results are local variables holding zero values; a bare return (which would return them) is refused
+	var resultDecls []string
 	if fd.Type.Results != nil {
 		for _, r := range fd.Type.Results.List {
-			if len(r.Names) != 0 {
-				fail(r.Pos(), "named results are outside the subset")
+			for _, n := range r.Names {
+				zk := zkindOf(r.Type, t.tparams)
+				if zk == "" {
+					fail(r.Type.Pos(), "zero value of the type of the named result is outside the subset")
+				}
+				t.declare(n, scalarType(r.Type, t.tparams))
+				t.namedResults = true
+				resultDecls = append(resultDecls, "(SVar ["+t.local(n.Pos(), n.Name)+"] (Some "+zk+") [])")
 			}
 		}
 	}
 	body := t.block(fd.Body)
+	if len(resultDecls) > 0 {
+		body = "(" + list(resultDecls) + " ++ " + body + ")"
+	}
 	t.id(t.recvType)
 	t.id(fd.Name.Name)
 	term := fmt.Sprintf("{| fn_recv := %s; fn_params := %s;\n     fn_body := %s |}", t.local(rf.Pos(), t.recvVar), list(params), body)
@@ -1160,7 +1206,7 @@ func main() {
 	parseErr := map[string]string{}
 	for _, dir := range []string{"agent", "collection"} {
 		pf := &pkgFacts{structs: map[string]*structDecl{}, sliceTys: map[string]bool{}, accessors: map[string]string{},
-			fieldName: map[string]bool{}, funcs: map[string]*ast.FuncDecl{}, files: map[string]*ast.File{}, fileOf: map[*ast.FuncDecl]string{}}
+			fieldName: map[string]bool{}, consts: map[string]int{}, funcs: map[string]*ast.FuncDecl{}, files: map[string]*ast.File{}, fileOf: map[*ast.FuncDecl]string{}}
 		pkgs[dir] = pf
 		matches, err := filepath.Glob(filepath.Join(root, "v4", dir, "*.go"))
 		if err != nil || len(matches) == 0 {
@@ -1182,6 +1228,9 @@ func main() {
 		}
 		for k, v := range pf.accessors {
 			allAccessors[k] = v
+		}
+		for k, v := range pf.consts {
+			allConsts[k] = v
 		}
 	}
 	for _, s := range selection {
@@ -1222,6 +1271,10 @@ func main() {
 	for _, s := range selection {
 		ids[s.Recv] = true
 		ids[s.Method] = true
+	}
+	for _, e := range externals {
+		ids[e[0]] = true
+		ids[e[1]] = true
 	}
 	// structs: those that are named by the selection or by a translated composite literal
 	var structNames []string
